@@ -1,7 +1,7 @@
 import CentrifugeVerif.Model.Handshake
 /-!
-Helper lemmas for C31: when can Go's `base64.StdEncoding.Decode` into the 16-byte buffer of
-`isValidChallengeKey` panic.
+Helper lemmas for C31: Go's `base64.StdEncoding.Decode` into the buffer of `isValidChallengeKey`
+cannot panic (it could while the buffer had 16 bytes).
 -/
 namespace CentrifugeVerif.C31
 open CentrifugeVerif.Sha1 (Bytes ascii be sha1)
@@ -93,17 +93,27 @@ theorem goDecodeLen_panic (cap : Nat) : ∀ (f : Nat) (src : Bytes) (n : Nat),
         · have := ih rest (n + (k - 1)) h
           omega
 
-/-- `isValidChallengeKey` can only panic on a value with at least 23 base64 alphabet characters
-(a valid key has exactly 22). -/
-theorem key_panic_needs_23 (s : Bytes) (h : isValidChallengeKey s = .panic) : 23 ≤ alphaCount s := by
+theorem alphaCount_le_length (s : Bytes) : alphaCount s ≤ s.length := by
+  induction s with
+  | nil => simp [alphaCount]
+  | cons c cs ih => simp only [alphaCount, List.length_cons]; split <;> omega
+
+/-- `isValidChallengeKey` never panics: the destination has `DecodedLen(24) = 18` bytes and 24
+characters cannot decode to more. -/
+theorem key_no_panic (s : Bytes) : isValidChallengeKey s ≠ .panic := by
+  intro h
   unfold isValidChallengeKey at h
   split at h
   · cases h
-  · split at h
+  · rename_i hlen
+    have h24 : s.length = 24 := by simpa using hlen
+    split at h
     · split at h <;> cases h
     · cases h
     · rename_i hp
-      have := goDecodeLen_panic 16 _ _ _ hp
+      have := goDecodeLen_panic _ _ _ _ hp
+      have hle := alphaCount_le_length s
+      simp only [decodedLen, h24] at this
       omega
 
 end CentrifugeVerif.C31
